@@ -8,7 +8,7 @@ From Helm Require Import Values.Tree Common.Assoc
   Misc.PanicsStrvalsLex Misc.PanicsStrvals Misc.PanicsStrvalsProofs Gen.C20Tables
   Misc.PanicsSchemaCoalesce
   Misc.PanicsRec Misc.PanicsRecProofs Misc.PanicsGate Misc.PanicsGateProofs Gen.C20Rec Misc.PanicsTie
-  Misc.PanicsCoalesce Misc.PanicsCoalesceProofs.
+  Misc.PanicsCoalesce Misc.PanicsCoalesceProofs Misc.PanicsSmall Misc.PanicsSmallProofs.
 From Helm Require Values.Coalesce.
 Import ListNotations.
 Local Open Scope string_scope.
@@ -579,3 +579,40 @@ Theorem C20_coalesce_unguarded_refuted :
   coalesce_p true false (Coalesce.mkChart "top" [] [Coalesce.mkChart "sub" [] []]) [("sub", VStr "x")] = Err.
 Proof. exact coalesce_unguarded_panics. Qed.
 Print Assumptions C20_coalesce_unguarded_refuted.
+
+(* ---- C20_plugin / C20_prov_message: two pieces of glue with index expressions ---- *)
+
+(* plugin.yaml -> LoadDir (validatePluginData) -> Plugin.PrepareCommand (getPlatformCommand,
+   PrepareCommands): cmdParts[0] and cmdParts[1:] are in range and p.Metadata is not nil, for every
+   decoded metadata (absent too), every platformCommand list and every behaviour of
+   strings.EqualFold / strings.Split / os.ExpandEnv / the name regexp *)
+Theorem C20_plugin_prepare_command :
+  forall (eq_fold : string -> string -> bool) (goos goarch : string) (expand : string -> string)
+         (split_space : string -> list string) (name_ok : string -> bool)
+         (md : option pmeta) (extra : list string),
+    no_panic (load_and_prepare eq_fold goos goarch expand split_space name_ok md extra).
+Proof. exact load_and_prepare_no_panic. Qed.
+Print Assumptions C20_plugin_prepare_command.
+
+(* a Plugin that did not come from LoadDir (nil Metadata) does panic, and so does an empty
+   command list without the length test in front of cmdParts[0] *)
+Theorem C20_plugin_unguarded_refuted :
+  is_panic (prepare_command eq_fold_ascii "linux" "amd64" (fun s => s) split_space_s true None []) = true /\
+  is_panic (prepare_commands eq_fold_ascii "linux" "amd64" (fun s => s) split_space_s false [] true []) = true /\
+  prepare_commands eq_fold_ascii "linux" "amd64" (fun s => s) split_space_s true [] true [] = Err.
+Proof. exact plugin_unguarded_panics. Qed.
+Print Assumptions C20_plugin_unguarded_refuted.
+
+(* provenance parseMessageBlock: parts[0] and parts[1] behind len(parts) < 2, for every result
+   of bytes.Split and every verdict of the YAML decoder *)
+Theorem C20_prov_message_block :
+  forall (B : Type) (unmarshal_md unmarshal_sums : B -> bool) (parts : list B),
+    no_panic (parse_message_block B unmarshal_md unmarshal_sums 2 parts).
+Proof. exact parse_message_block_no_panic. Qed.
+Print Assumptions C20_prov_message_block.
+
+Theorem C20_prov_message_block_refuted :
+  is_panic (parse_message_block string (fun _ => true) (fun _ => true) 1 ["only one part"]) = true /\
+  parse_message_block string (fun _ => true) (fun _ => true) 2 ["only one part"] = Err.
+Proof. exact parse_message_block_unguarded_panics. Qed.
+Print Assumptions C20_prov_message_block_refuted.
